@@ -32,6 +32,9 @@ func c19(c *Ctx) {
 		{"nil-pointer", h.NilPtr(), true, false, true},
 		{"empty-string", h.Str(""), false, true, false},
 		{"string", h.Str("abc"), false, false, false},
+		{"blank-string", h.Str(" "), false, false, false},
+		{"whitespace-string", h.Str("\t\n"), false, false, false},
+		{"nbsp-string", h.Str("\u00a0\u3000"), false, false, false},
 		{"zero", h.FloatD(0), false, true, false},
 		{"zero-int", h.Int("int", 0), false, true, false},
 		{"number", h.FloatD(2.5), false, false, false},
